@@ -6,5 +6,5 @@ PROP = dict(
     technique="differential property-based testing (rapid) + exhaustive enumeration of a small predicate/range domain through the real lake path",
     assumptions=["the in-memory storage engine stands in for file/S3 storage", "pruning is observed through data bytes read / objects opened"],
     tests=[dict(name="TestPrunerExhaustive", quick=(8, 4), thorough=(16, 8)),
-           dict(name="TestPrunerRandom", quick=(8, 60), thorough=(16, 800))],
+           dict(name="TestPrunerRandom", quick=(8, 60), thorough=(16, 400))],
 )
